@@ -330,6 +330,27 @@ theorem inv_step (s : CState) (h : HInv s) (op : Op) : HInv (cstep s op) := by
         by_cases hk : k < buf.length
         · simpa [hs, hb, hk] using inv_write s h a (buf.set k v) buf hb (by simp)
         · simpa [hs, hb, hk] using h
+  | convert dst src =>
+    simp only [cstep]
+    cases hd : s.slots dst with
+    | some d => simpa [hd] using h
+    | none =>
+      cases hs : s.slots src with
+      | none => simpa [hd, hs] using h
+      | some o =>
+        by_cases hr : o.readable
+        · simpa [hd, hs, hr] using inv_alloc s h dst o.size (srcBuf s o) hd (srcBuf_length s h src o hs)
+        · simpa [hd, hs, hr] using h
+  | dumpLoad dst src =>
+    simp only [cstep]
+    cases hs : s.slots src with
+    | none => simpa [hs] using h
+    | some o =>
+      by_cases hr : o.readable
+      · cases hd : s.slots dst with
+        | none => simpa [hs, hr, hd] using inv_alloc s h dst o.size (srcBuf s o) hd (srcBuf_length s h src o hs)
+        | some d => simpa [hs, hr, hd] using inv_copyAssign s h dst src d o hd hs
+      · simpa [hs, hr] using h
 
 theorem inv_cinit : HInv cinit := by constructor <;> simp [cinit]
 
